@@ -284,6 +284,10 @@ pub fn run(ctx: &Ctx) -> (Spec, Report) {
                 .filter(|l| !((generic_enum || generic_alias) && matches!(l, LangId::Go | LangId::Python)))
                 .map(|l| {
                     let mut c = LangCfg::basic(*l);
+                    if *l == LangId::Go && rng.coin() {
+                        // acronym upper-casing rewrites type names: definitions and references have to agree under it
+                        c.uppercase_acronyms = vec!["ID".into(), "URL".into(), "Info".into()];
+                    }
                     if matches!(l, LangId::Swift | LangId::Kotlin) && rng.coin() {
                         c.prefix = "Pf".into();
                     }
